@@ -140,16 +140,80 @@ Definition download_gen (trunc : bool) (size : N) (expected partial : bytes) (le
 Definition download := download_gen true.               (* the code as it is (since commit adc145b) *)
 Definition download_before_fix := download_gen false.   (* the code before the repair: historical counterexample only *)
 
-(* Two calls on one Store with the download cache ON (CacheManager, store/cache.go), same DownloadInfo, different target
-   paths. A successful call ends with cacher.Put(sha3, target) (hard link into the cache under the digest as key); the
-   next call starts with cacher.Get(sha3, target2): a hard link of the cached file to the new target and `return nil`
-   -- NO request, the second .partial is not even opened, and the cached file is NOT hashed again. *)
-Definition download_twice (size : N) (expected p1 : bytes) (l1 : bool) (attempts : nat) (s1 : list beh)
-  (p2 : option bytes) (l2 : bool) (s2 : list beh) : outcome * outcome :=
-  let o1 := download size expected p1 l1 attempts s1 in
-  match o_err o1 with
-  | ENone => (o1, {| o_err := ENone; o_target := o_target o1; o_partial := p2 |})
-  | _ => (o1, download size expected (match p2 with Some p => p | None => [] end) l2 attempts s2)
+(* ---------------------------------------------------------------- the download cache (store/cache.go, CacheManager)
+
+   [cache] = the content of the cache file named by the digest, if there is one. Download starts with
+   cacher.Get(sha3, target) = os.Link(cachefile, target): success, OR the error EEXIST (a file is already at the target
+   path), both count as a hit and Download returns nil at once -- no request, the .partial is not opened, NOTHING IS
+   HASHED. A successful real download ends with cacher.Put(sha3, target): the target is hard-linked into the cache.
+   [k_pre] = a file that is already at the target path before the call (outside the property's quantifier; kept in the
+   model so that the tie covers it). *)
+Record call := { k_pre : option bytes; k_partial : option bytes; k_leave : bool; k_script : list beh }.
+
+Definition opt_bytes (o : option bytes) : bytes := match o with Some b => b | None => [] end.
+
+Definition download_c (cache : option bytes) (size : N) (expected : bytes) (attempts : nat) (k : call)
+  : outcome * option bytes :=
+  match cache with
+  | Some c =>
+      ({| o_err := ENone; o_target := Some (match k_pre k with Some t => t | None => c end); o_partial := k_partial k |},
+       cache)
+  | None =>
+      let o := download size expected (opt_bytes (k_partial k)) (k_leave k) attempts (k_script k) in
+      match o_err o with
+      | ENone => (o, o_target o)                 (* rename replaces whatever was at the target; Put *)
+      | _ => ({| o_err := o_err o; o_target := k_pre k; o_partial := o_partial o |}, None)
+      end
+  end.
+
+(* any number of calls on one Store for the same DownloadInfo (each to its own target path) *)
+Fixpoint download_seq (cache : option bytes) (size : N) (expected : bytes) (attempts : nat) (ks : list call)
+  : list outcome * option bytes :=
+  match ks with
+  | [] => ([], cache)
+  | k :: r =>
+      let (o, cache') := download_c cache size expected attempts k in
+      let (os, cache'') := download_seq cache' size expected attempts r in
+      (o :: os, cache'')
+  end.
+
+(* ---------------------------------------------------------------- deltas (downloadAndApplyDelta, applyDeltaImpl)
+
+   DownloadInfo carries exactly one delta. Its file is downloaded by the same downloadImpl (fresh O_TRUNC file, no
+   hash-error retry) from the same server, then xdelta3 -- an ORACLE here -- is run with output targetPath.partial (the
+   very file the full download uses), the result is hashed, and renamed to the target only if the digest matches.
+   Any error falls back to the full download. *)
+Inductive xdelta :=
+| XFail                   (* non-zero exit: the code removes targetPath.partial *)
+| XWrite (out : bytes)    (* exit 0, targetPath.partial now holds [out] *)
+| XNoOutput.              (* exit 0 without touching targetPath.partial *)
+
+Record delta := {
+  d_format_ok : bool;     (* deltaInfo.Format = s.deltaFormat = xdelta3 (checked before any request) *)
+  d_from_present : bool;  (* the snap of the delta's from-revision is in dirs.SnapBlobDir *)
+  d_content : bytes;      (* the delta file whose digest is declared *)
+  d_x : xdelta
+}.
+
+Definition download_delta (size : N) (expected : bytes) (partial : option bytes) (leave : bool) (attempts : nat)
+  (d : delta) (script : list beh) : outcome :=
+  let full := fun (p : option bytes) (s : list beh) => download size expected (opt_bytes p) leave attempts s in
+  let accept := fun (f : bytes) => {| o_err := ENone; o_target := Some f; o_partial := None |} in
+  if negb (d_format_ok d) then full partial script else
+  let '(e, _, _, rest) := dl_loop true (pred attempts) script (d_content d) [] O O in
+  match e with
+  | ENone =>
+      if negb (d_from_present d) then full partial rest else
+      match d_x d with
+      | XFail => full None rest
+      | XWrite out => if beq out expected then accept out else full None rest
+      | XNoOutput =>
+          match partial with
+          | Some p => if beq p expected then accept p else full None rest
+          | None => full partial rest                                  (* Chmod fails: no such file *)
+          end
+      end
+  | _ => full partial rest
   end.
 
 (* Guard of the conditional theorem: a response never carries more than [sz] bytes (the declared size), and the
@@ -165,10 +229,10 @@ Definition beh_within (sz : nat) (b : beh) : bool :=
 Inductive case :=
 | Case (size : N) (expected : bytes) (partial : option bytes) (leave : bool) (attempts : nat) (script : list beh)
        (obs_err : derr) (obs_target : option bytes) (obs_partial_present : bool)
-| CaseCached (size : N) (expected : bytes) (partial : option bytes) (leave : bool) (attempts : nat) (script : list beh)
-       (partial2 : option bytes) (leave2 : bool) (script2 : list beh)
-       (obs_err : derr) (obs_target : option bytes) (obs_partial_present : bool)
-       (obs_err2 : derr) (obs_target2 : option bytes) (obs_partial_present2 : bool).
+| CaseSeq (size : N) (expected : bytes) (attempts : nat) (calls : list call)
+       (obs : list (derr * option bytes * bool))              (* per call: error, target, .partial present *)
+| CaseDelta (size : N) (expected : bytes) (partial : option bytes) (leave : bool) (attempts : nat) (d : delta)
+       (script : list beh) (obs_err : derr) (obs_target : option bytes) (obs_partial_present : bool).
 
 Definition opt_beq (a b : option bytes) : bool :=
   match a, b with
@@ -179,16 +243,24 @@ Definition opt_beq (a b : option bytes) : bool :=
 
 Definition is_some {A} (o : option A) : bool := match o with Some _ => true | None => false end.
 
+Fixpoint outcomes_match (os : list outcome) (obs : list (derr * option bytes * bool)) : bool :=
+  match os, obs with
+  | [], [] => true
+  | o :: os', (oe, ot, op) :: obs' =>
+      derr_eqb (o_err o) oe && opt_beq (o_target o) ot && Bool.eqb (is_some (o_partial o)) op && outcomes_match os' obs'
+  | _, _ => false
+  end.
+
 Definition mismatch (c : case) : bool :=
   match c with
   | Case size expected partial leave attempts script oe ot op =>
       let o := download size expected (match partial with Some p => p | None => [] end) leave attempts script in
       negb (derr_eqb (o_err o) oe && opt_beq (o_target o) ot && Bool.eqb (is_some (o_partial o)) op)
-  | CaseCached size expected partial leave attempts script partial2 leave2 script2 oe ot op oe2 ot2 op2 =>
-      let (o, o2) := download_twice size expected (match partial with Some p => p | None => [] end) leave attempts script
-                       partial2 leave2 script2 in
-      negb (derr_eqb (o_err o) oe && opt_beq (o_target o) ot && Bool.eqb (is_some (o_partial o)) op &&
-            derr_eqb (o_err o2) oe2 && opt_beq (o_target o2) ot2 && Bool.eqb (is_some (o_partial o2)) op2)
+  | CaseSeq size expected attempts calls obs =>
+      negb (outcomes_match (fst (download_seq None size expected attempts calls)) obs)
+  | CaseDelta size expected partial leave attempts d script oe ot op =>
+      let o := download_delta size expected partial leave attempts d script in
+      negb (derr_eqb (o_err o) oe && opt_beq (o_target o) ot && Bool.eqb (is_some (o_partial o)) op)
   end.
 
 (* the property's conclusion on the implementation's observed behaviour (does not use the model):
@@ -200,8 +272,21 @@ Definition monitor_fail (c : case) : bool :=
       | ENone => negb (opt_beq ot (Some expected))
       | _ => is_some ot
       end
-  | CaseCached size expected partial leave attempts script partial2 leave2 script2 oe ot op oe2 ot2 op2 =>
-      (* the same for both calls: also a target produced from the cache has the expected digest *)
-      match oe with ENone => negb (opt_beq ot (Some expected)) | _ => is_some ot end ||
-      match oe2 with ENone => negb (opt_beq ot2 (Some expected)) | _ => is_some ot2 end
+  | CaseSeq size expected attempts calls obs =>
+      (* the same for every call whose target path was free before the call (the property does not speak about files
+         already at the target path): also a target produced from the cache has the expected digest *)
+      (fix go (ks : list call) (obs : list (derr * option bytes * bool)) : bool :=
+         match ks, obs with
+         | k :: ks', (oe, ot, _) :: obs' =>
+             (match k_pre k with
+              | Some _ => false
+              | None => match oe with ENone => negb (opt_beq ot (Some expected)) | _ => is_some ot end
+              end) || go ks' obs'
+         | _, _ => false
+         end) calls obs
+  | CaseDelta size expected partial leave attempts d script oe ot op =>
+      match oe with
+      | ENone => negb (opt_beq ot (Some expected))
+      | _ => is_some ot
+      end
   end.
